@@ -557,10 +557,15 @@ class ModelBase:
             d = it.of
             k = d.keyelem if d.keyelem is not None else AV(ty='str')
             v = d.elem if d.elem is not None else (join_all(d.kw.values()) if d.kw else TOP)
+            if d.deps and v is not None:
+                v = v.w(deps=(v.deps or frozenset()) | d.deps)  # what is taken out of a container depends on the container
             return AV(ty='tuple', elts=[k, v])
         if ty == 'dictvalues':
             d = it.of
-            return d.elem if d.elem is not None else (join_all(d.kw.values()) if d.kw else TOP)
+            v = d.elem if d.elem is not None else (join_all(d.kw.values()) if d.kw else TOP)
+            if d.deps and v is not None:
+                v = v.w(deps=(v.deps or frozenset()) | d.deps)
+            return v
         if ty == 'str':
             return AV(ty='str')
         if ty == 'star':
